@@ -134,6 +134,30 @@ pub enum PoisonTrace {
     /// a *valid* (if extreme) model spec, built and swept without any guard: an overflow
     /// panic here is arithmetic that is only correct because release builds wrap
     ValidModel { spec: crate::model::ModelSpec },
+    /// coders put together with the safe, public `from_raw_parts` constructors from parts
+    /// that are valid values of their (public) types but that no coder would ever reach:
+    /// huge held-back counters, intervals anywhere, points and head states of any value
+    RawParts { cfg: usize, which: RawWhich, bulk: Vec<u64>, cap: usize, lower: (u64, u64), range: (u64, u64), point: (u64, u64), inverted: Option<(u64, u64)>, p: u8, probs: Vec<u64>, uses: Vec<RawUse> },
+}
+
+#[derive(Clone, Copy, Debug, Serialize, Deserialize, PartialEq)]
+pub enum RawWhich {
+    /// `RangeEncoder::from_raw_parts` over a bounded cursor (a runaway loop ends at the capacity)
+    RangeEncoderBounded,
+    /// `RangeEncoder::from_raw_parts` over a `Vec` (small counters only)
+    RangeEncoderVec,
+    RangeDecoder,
+    Ans,
+}
+
+#[derive(Clone, Copy, Debug, Serialize, Deserialize, PartialEq)]
+pub enum RawUse {
+    Enc(usize),
+    Dec,
+    /// `get_compressed()` / `get_binary()` and drop the guard
+    View,
+    Queries,
+    Finish,
 }
 
 struct BadDist {
@@ -225,6 +249,11 @@ pub fn exec(t: &PoisonTrace, ctx: &mut Ctx) -> Result<(), Violation> {
             }
             Ok(())
         }
+        PoisonTrace::RawParts { cfg, .. } => {
+            ctx.stats.hit("fault-hostile-raw-parts");
+            crate::for_cfg!(*cfg, |C| rawparts::<C>(t, ctx));
+            Ok(())
+        }
         PoisonTrace::Quantile { pp, kind, n, quantiles } => {
             ctx.stats.hit("fault-out-of-range-quantile");
             match pp % 3 {
@@ -244,6 +273,110 @@ fn guarded<R>(ctx: &mut Ctx, what: &str, f: impl FnOnce() -> R) -> Option<R> {
         Err(_) => {
             ctx.stats.hit(&format!("allowed-panic-{}", what));
             None
+        }
+    }
+}
+
+fn pair(x: (u64, u64)) -> u128 {
+    ((x.0 as u128) << 64) | x.1 as u128
+}
+
+fn rawparts<C: Ws>(t: &PoisonTrace, ctx: &mut Ctx) {
+    use crate::dynops::WordOps;
+    use constriction::stream::queue::{EncoderSituation, RangeCoderState, RangeDecoder, RangeEncoder};
+    let PoisonTrace::RawParts { which, bulk, cap, lower, range, point, inverted, p, probs, uses, .. } = t else { return };
+    let pb = match C::WB { 8 => 8u8, 16 => 16, 32 => 32, _ => 64 };
+    if !crate::model::MENU.contains(&(pb, *p)) || probs.iter().map(|&x| x as u128).sum::<u128>() != 1u128 << *p || probs.iter().any(|&x| x == 0) || probs.len() < 2 {
+        return;
+    }
+    let spec = crate::model::ModelSpec { pb, p: *p, kind: crate::model::Kind::Table { first: 0, probs: probs.clone() } };
+    let Some(b) = crate::model::build_caught(&spec, crate::model::Repr::Plain) else { return };
+    let words: Vec<C::W> = bulk.iter().map(|&w| w_from(w)).collect();
+    let n_syms = probs.len();
+    ctx.stats.hit(&format!("rawparts-{:?}", which));
+    let state = RangeCoderState::<C::W, C::S>::new(s_from(pair(*lower)), s_from(pair(*range)));
+    let sit = match inverted {
+        None => EncoderSituation::Normal,
+        Some((n, w)) => EncoderSituation::Inverted(std::num::NonZeroUsize::new(*n as usize).unwrap_or(std::num::NonZeroUsize::MAX), w_from::<C::W>(*w)),
+    };
+    match which {
+        RawWhich::RangeEncoderBounded => {
+            let Ok(state) = state else { return };
+            let len = words.len();
+            let mut buf = words;
+            buf.resize(len + cap, C::W::default());
+            let cur = Cursor::new_at_pos(buf, len).expect("in range");
+            guarded(ctx, "raw-range-encoder", move || {
+                let mut e = RangeEncoder::<C::W, C::S, _>::from_raw_parts(cur, state, sit);
+                for u in uses {
+                    match u {
+                        RawUse::Enc(s) => { let _ = <C::W as WordOps>::enc(&mut e, &b, (*s % n_syms) as i64); }
+                        RawUse::Queries => { let _ = e.maybe_full(); }
+                        RawUse::Finish => { let _ = e.clone().into_compressed(); }
+                        _ => {}
+                    }
+                }
+                let _ = e.into_compressed();
+            });
+        }
+        RawWhich::RangeEncoderVec => {
+            let Ok(state) = state else { return };
+            // an unbounded sink: keep the held-back counter small, sealing writes that many words
+            let sit = match sit {
+                EncoderSituation::Inverted(n, w) => EncoderSituation::Inverted(std::num::NonZeroUsize::new(1 + n.get() % 64).expect("nonzero"), w),
+                s => s,
+            };
+            guarded(ctx, "raw-range-encoder-vec", move || {
+                let mut e = RangeEncoder::<C::W, C::S>::from_raw_parts(words, state, sit);
+                for u in uses {
+                    match u {
+                        RawUse::Enc(s) => { let _ = <C::W as WordOps>::enc(&mut e, &b, (*s % n_syms) as i64); }
+                        RawUse::Queries => { let _ = (e.num_words(), e.num_bits(), e.is_empty()); }
+                        RawUse::View => { let _ = e.get_compressed().len(); }
+                        RawUse::Dec => { let mut d = e.decoder(); let _ = <C::W as WordOps>::dec(&mut d, &b); let _ = d.maybe_exhausted(); }
+                        RawUse::Finish => { let _ = e.clone().into_compressed(); }
+                    }
+                }
+                let _ = e.into_decoder().map(|mut d| <C::W as WordOps>::dec(&mut d, &b));
+            });
+        }
+        RawWhich::RangeDecoder => {
+            let Ok(state) = state else { return };
+            let pos = (*cap).min(words.len());
+            let cur = Cursor::new_at_pos(words, pos).expect("in range");
+            let point: C::S = s_from(pair(*point));
+            guarded(ctx, "raw-range-decoder", move || {
+                let Ok(mut d) = RangeDecoder::<C::W, C::S, _>::from_raw_parts(cur, state, point) else { return };
+                for u in uses {
+                    match u {
+                        RawUse::Dec | RawUse::Enc(_) => { let _ = <C::W as WordOps>::dec(&mut d, &b); }
+                        RawUse::Queries => { let _ = d.maybe_exhausted(); }
+                        RawUse::View | RawUse::Finish => { let (bulk, st, pt) = d.into_raw_parts(); d = match RangeDecoder::from_raw_parts(bulk, st, pt) { Ok(d) => d, Err(_) => return }; }
+                    }
+                }
+            });
+        }
+        RawWhich::Ans => {
+            let st: C::S = s_from(pair(*lower));
+            guarded(ctx, "raw-ans", move || {
+                let mut c = AnsCoder::<C::W, C::S, Vec<C::W>>::from_raw_parts(words, st);
+                for u in uses {
+                    match u {
+                        RawUse::Enc(s) => { let _ = <C::W as WordOps>::enc(&mut c, &b, (*s % n_syms) as i64); }
+                        RawUse::Dec => { let _ = <C::W as WordOps>::dec(&mut c, &b); }
+                        RawUse::Queries => { let _ = (c.num_words(), c.num_bits(), c.num_valid_bits(), c.is_empty()); }
+                        RawUse::View => {
+                            let _ = c.get_compressed().map(|g| g.len());
+                            let _ = c.get_binary().map(|g| g.len());
+                            let _ = c.iter_compressed().count();
+                        }
+                        RawUse::Finish => {
+                            let _ = c.clone().into_compressed();
+                            let _ = c.clone().into_binary();
+                        }
+                    }
+                }
+            });
         }
     }
 }
@@ -538,7 +671,53 @@ fn poison_value(rng: &mut Rng) -> f64 {
 pub fn generate(seed: u64, _prop: &str, _thorough: bool) -> PoisonTrace {
     let mut root = Rng::new(seed);
     let mut rng = root.fork("faults");
-    match rng.below(15) {
+    match rng.below(18) {
+        15 | 16 | 17 => {
+            let cfg = if rng.chance(1, 2) { 0 } else { rng.usize(CONFIGS.len()) };
+            let (wb, sb) = CONFIGS[cfg];
+            let pb = wb as u8;
+            let ps: Vec<u8> = crate::model::MENU.iter().filter(|(b, _)| *b == pb).map(|(_, p)| *p).collect();
+            let p = *rng.pick(&ps);
+            let total: u128 = 1u128 << p;
+            // a small table with a fat middle: symbols that keep an interval astride the wrap point
+            let probs: Vec<u64> = if total >= 4 && rng.chance(2, 3) {
+                let q = (total / 4) as u64;
+                vec![q, (total - 2 * q as u128) as u64, q]
+            } else if total >= 2 {
+                let a = 1 + rng.below((total - 1).min(u64::MAX as u128) as u64);
+                vec![a, (total - a as u128) as u64]
+            } else {
+                vec![1, 1]
+            };
+            let mask: u128 = if sb >= 128 { u128::MAX } else { (1u128 << sb) - 1 };
+            let thr: u128 = 1u128 << (sb - wb);
+            let any = |rng: &mut Rng| -> u128 { (((rng.next_u64() as u128) << 64) | rng.next_u64() as u128) & mask };
+            // ranges: just above the renormalisation threshold, anywhere, or invalid (too small)
+            let range = match rng.below(5) {
+                0 | 1 => thr + (rng.next_u64() as u128 % (3 * thr)).min(mask - thr),
+                2 => any(&mut rng) | thr,
+                3 => mask,
+                _ => any(&mut rng) % thr,
+            } & mask;
+            // lower: astride the wrap point (lower + range wraps), anywhere, or zero
+            let lower = match rng.below(4) {
+                0 | 1 => (mask - (rng.next_u64() as u128 % range.max(1))) & mask,
+                2 => any(&mut rng),
+                _ => 0,
+            };
+            let point = match rng.below(3) { 0 => lower.wrapping_add(rng.next_u64() as u128 % range.max(1)) & mask, 1 => any(&mut rng), _ => lower };
+            let inverted = match rng.below(4) {
+                0 => None,
+                1 => Some((u64::MAX - rng.below(3), rng.word(wb))),
+                2 => Some((1 + rng.below(4), rng.word(wb))),
+                _ => Some((rng.next_u64(), rng.word(wb))),
+            };
+            let split = |x: u128| ((x >> 64) as u64, x as u64);
+            let which = *rng.pick(&[RawWhich::RangeEncoderBounded, RawWhich::RangeEncoderBounded, RawWhich::RangeEncoderVec, RawWhich::RangeDecoder, RawWhich::Ans]);
+            let bulk: Vec<u64> = (0..rng.usize(6)).map(|_| rng.word(wb)).collect();
+            let uses = (0..1 + rng.usize(6)).map(|_| match rng.below(8) { 0 => RawUse::Dec, 1 => RawUse::View, 2 => RawUse::Queries, 3 => RawUse::Finish, _ => RawUse::Enc(rng.usize(3)) }).collect();
+            PoisonTrace::RawParts { cfg, which, bulk, cap: rng.usize(12), lower: split(lower), range: split(range), point: split(point), inverted, p, probs, uses }
+        }
         12 | 13 | 14 => {
             let ctor = *rng.pick(&[TableCtor::ContigFixed, TableCtor::LookupContigFixed, TableCtor::NonContigEncFixed, TableCtor::NonContigDecFixed, TableCtor::LookupNonContigFixed, TableCtor::LookupNonContigFast, TableCtor::LookupNonContigPerfect, TableCtor::NonContigEncFast, TableCtor::NonContigDecFast, TableCtor::NonContigEncPerfect, TableCtor::NonContigDecPerfect]);
             let pp = rng.usize(3);
